@@ -1,6 +1,6 @@
 (** Coinswap proofs, part 4: well-formedness is preserved by every message,
     hence holds along every history. *)
-From Coq Require Import ZArith List Bool Lia Psatz.
+From Coq Require Import ZArith List Bool Lia.
 From Canto Require Import Lib.SdkInt Lib.SdkDec Lib.SdkDecProofs Model.Coinswap
      Proofs.CoinswapBase Proofs.CoinswapEffects.
 Import ListNotations.
